@@ -87,6 +87,9 @@ type Session struct {
 	SessionID string
 	Class     []byte
 
+	// cleanedUp is set once the session's resources have been released (see SessionTeardown.cleanup)
+	cleanedUp bool
+
 	mu sync.RWMutex
 }
 
